@@ -1848,16 +1848,24 @@ static int64_t eval2(Node *node, char ***label) {
     return eval2(node->lhs, label) - eval(node->rhs);
   case ND_MUL:
     return eval(node->lhs) * eval(node->rhs);
-  case ND_DIV:
+  case ND_DIV: {
+    int64_t rhs = eval(node->rhs);
+    if (!rhs)
+      error_tok(node->rhs->tok, "division by zero in constant expression");
     if (node->ty->is_unsigned)
-      return (uint64_t)eval(node->lhs) / eval(node->rhs);
-    return eval(node->lhs) / eval(node->rhs);
+      return (uint64_t)eval(node->lhs) / rhs;
+    return eval(node->lhs) / rhs;
+  }
   case ND_NEG:
     return -eval(node->lhs);
-  case ND_MOD:
+  case ND_MOD: {
+    int64_t rhs = eval(node->rhs);
+    if (!rhs)
+      error_tok(node->rhs->tok, "division by zero in constant expression");
     if (node->ty->is_unsigned)
-      return (uint64_t)eval(node->lhs) % eval(node->rhs);
-    return eval(node->lhs) % eval(node->rhs);
+      return (uint64_t)eval(node->lhs) % rhs;
+    return eval(node->lhs) % rhs;
+  }
   case ND_BITAND:
     return eval(node->lhs) & eval(node->rhs);
   case ND_BITOR:
